@@ -24,6 +24,9 @@ ApproxKnots(p, r, n, uk) ==
 \* collocation matrix N[k][i] = N_{i,p}(u_k)
 Colloc(p, U, uk) == LET n == NumCtrl(p, U) IN TLCEval([k \in 1..Len(uk) |-> [i \in 1..n |-> NDom(i - 1, p, U, uk[k])]])
 SchoenbergWhitney(p, U, uk) == \A k \in 1..Len(uk) : RGt(NDom(k - 1, p, U, uk[k]), Zero)
+\* the same conditions stated on the knots alone: u_k lies inside the support of the k-th basis function (closed at the two domain ends)
+SWKnots(p, U, uk) == \A k \in 1..Len(uk) : /\ (RLt(U[k], uk[k]) \/ (k = 1 /\ uk[k] = U[1]))
+                                           /\ (RLt(uk[k], U[k + p + 1]) \/ (k = Len(uk) /\ uk[k] = U[Len(U)]))
 \* every knot span contains a parameter (consequence of Eq 9.69)
 SpansPopulated(p, U, uk) == \A ab \in DomainSpans(p, U) : \E k \in 1..Len(uk) : RLe(ab[1], uk[k]) /\ RLe(uk[k], ab[2])
 =============================================================================
